@@ -79,7 +79,11 @@ def run_C05(res):
     reqs, meta = [], []
     for p, ml in zip(ps, legal):
         P = Pos(p)
-        for t in random_tokens(P, ml, rnd, 4):
+        toks = random_tokens(P, ml, rnd, 4)
+        ksq = (P.piece(5) & P.c0).bit_length() - 1
+        if ksq == 4 and (P.t[12] == "1" or P.t[13] == "1"):
+            toks += CASTLE_STRINGS      # every conventional castling string wherever the mover's king is on its e-file home square
+        for t in toks:
             reqs.append(f"apply {p} {t}")
             meta.append((p, ml, t))
     impl = run_hx_par(reqs)
